@@ -111,6 +111,27 @@ impl<S: BitmapSlice + Send + Sync> PassthroughFs<S> {
         last
     }
 
+    /// `true` if `buf` holds at least one record and every record is "." or "..".  Such a batch
+    /// yields no dirent for the guest, and an empty reply would be taken for end-of-directory.
+    fn only_dot_entries(mut buf: &[u8]) -> bool {
+        let mut seen = false;
+        while buf.len() >= size_of::<LinuxDirent64>() {
+            let dirent64 = LinuxDirent64::from_slice(&buf[..size_of::<LinuxDirent64>()])
+                .expect("fuse: unable to get LinuxDirent64 from slice");
+            let reclen = dirent64.d_reclen as usize;
+            if reclen < size_of::<LinuxDirent64>() || reclen > buf.len() {
+                break;
+            }
+            let name = &buf[size_of::<LinuxDirent64>()..reclen];
+            if !(name.starts_with(CURRENT_DIR_CSTR) || name.starts_with(PARENT_DIR_CSTR)) {
+                return false;
+            }
+            seen = true;
+            buf = &buf[reclen..];
+        }
+        seen
+    }
+
     /// Consume the cookie cached for `handle` and report whether it equals
     /// `offset`.  A match means the persistent directory fd is already
     /// positioned right after that entry and the next `getdents64` can start
@@ -265,6 +286,27 @@ impl<S: BitmapSlice + Send + Sync> PassthroughFs<S> {
                         buf.clear();
                     }
                 }
+            }
+
+            // A batch made only of "." / ".." would produce an empty reply, which the guest takes
+            // for end-of-directory although entries remain: keep reading until a batch holds a
+            // reportable entry or the directory really ends.
+            while Self::only_dot_entries(&buf) {
+                // Safe because the kernel guarantees that it will only write to `buf` and we
+                // check the return value.
+                let res = unsafe {
+                    libc::syscall(
+                        libc::SYS_getdents64,
+                        dir.as_raw_fd(),
+                        buf.as_mut_ptr() as *mut LinuxDirent64,
+                        size as libc::c_int,
+                    )
+                };
+                if res < 0 {
+                    return Err(io::Error::last_os_error());
+                }
+                // Safe because we trust the value returned by kernel.
+                unsafe { buf.set_len(res as usize) };
             }
 
             // Both paths leave the fd right after the last entry in `buf`; remember that
